@@ -181,6 +181,15 @@ Definition known_deviation (c : sconn) (s : RS.state) (i : rl_input) : bool :=
   | _ => false
   end.
 
+(* ---------- the part of the schedule space the theorems cover ---------- *)
+
+(* the request timer (maxRequestTime) is not covered *)
+Definition in_scope (it : item) : bool :=
+  match it with
+  | ILocal LTimer => false
+  | _ => true
+  end.
+
 (* ---------- the frames seen on each stream ---------- *)
 
 Definition frames_on (sid : N) (its : list item) : list RS.frame :=
